@@ -275,7 +275,8 @@ Definition eagg_value (k : aggk) (x : var) (ms : list mu) : option term :=
 
 Definition eaggregate (always : bool) (proj : option (list pitem)) (gb : list var) (rows : list mu) : list mu :=
   let aggs := aggs_of proj in
-  (* finalize_select groups only when an aggregate is projected; finalize_subquery also when GROUP BY is present *)
+  (* both finalize_select (since bc03712) and finalize_subquery group when an aggregate is projected or GROUP BY is
+     present; `always = false` is the behaviour of finalize_select before that repair, kept for the regression lemma *)
   let skip := match aggs with [] => if always then (match gb with [] => true | _ => false end) else true | _ => false end in
   if skip then rows else
     let gs := groups_of gb rows in
@@ -341,12 +342,15 @@ Fixpoint exec (st : dataset) (ev : eview) (active : option term) (p : pop) (inco
     end
   end.
 
-(* ---- execute_query.rs: finalize_select (on decoded rows) ---- *)
+(* ---- execute_query.rs: finalize_select (on decoded rows) ----
+   With GROUP BY the row of a group is its first row plus the aggregates (aggregate_rows); a projected variable that is
+   not a group key would get that representative's value, which no SPARQL answer prescribes (SPARQL rejects such a
+   projection), so the Spec, the generator and the corpus only project group keys and aggregate aliases. *)
 Definition finalize_select (s : sel) (rows : list mu) : list (list (option term)) :=
   match s with
   | Sel distinct proj _ gb ob lim =>
       let cols := columns s in
-      let rows := eaggregate false proj gb rows in
+      let rows := eaggregate true proj gb rows in
       let rows := esort ob rows in
       let rows := if distinct then dedup (fun a b => mu_eqb (restrict cols a) (restrict cols b)) rows else rows in
       let rows := match lim with Some n => firstn (N.to_nat n) rows | None => rows end in
